@@ -6,6 +6,7 @@ from pyvc import native
 
 def run(rep, tier, seed):
     verify_all(rep, k_modifying.specs('C12'))
+    k_modifying.usage_structural(rep, 'C12')
     sec = native.run('b_edit', 'main', {'props': ['C12'], 'tier': tier, 'seed': seed,
                                         'ops': ['remove', 'donor', 'slice', 'views', 'optional'], 'norm': True})
     sec['native_entry'] = ('b_edit', 'replay')
